@@ -328,6 +328,13 @@ def _first_diff(a, b, path=''):
 def run_skel(c, rng):
     import wntr
     spec = make_network(rng, c.tier, True)
+    if rng.random() < 0.4:
+        # inflow points: junctions with a negative base demand (EPANET and WNTR allow them)
+        for j in spec['junctions']:
+            if j['demands'] and rng.random() < 0.25:
+                d = rng.choice(j['demands'])
+                d['base'] = -abs(d['base']) * rng.choice([0.2, 0.5, 1.0]) if d['base'] else -1e-4
+                c.count('negative_demand_entries')
     wn = gnet.build(spec)
     diams = sorted(set(p['diameter'] for p in spec['pipes']))
     thr = rng.choice(diams + [diams[-1] + 1, 0.0, (diams[0] + diams[-1]) / 2])
